@@ -16,7 +16,7 @@ use super::{
     TSetIdentifier, TStructIdentifier, TType, ThriftException, ZERO_COPY_THRESHOLD,
     error::ProtocolExceptionKind,
     new_protocol_exception,
-    rw_ext::{ReadExt, WriteExt, split_to_checked},
+    rw_ext::{ReadExt, WriteExt, checked_container_size, split_to_checked},
     varint_ext::VarIntProcessor,
 };
 
@@ -1302,7 +1302,10 @@ impl TCompactInputProtocol<&mut Bytes> {
         } else {
             self.read_varint::<u32>()? as i32
         };
-        Ok((element_type, element_count as usize))
+        Ok((
+            element_type,
+            checked_container_size(element_count, self.trans.len())?,
+        ))
     }
 }
 
@@ -1835,7 +1838,7 @@ impl TInputProtocol for TCompactInputProtocol<&mut Bytes> {
             Ok(TMapIdentifier::new(
                 key_type,
                 val_type,
-                element_count as usize,
+                checked_container_size(element_count, self.trans.len())?,
             ))
         }
     }
